@@ -182,3 +182,15 @@ package ice
 //@   site call append#1 assert no-special-purpose-ipv6: is6 ==> v6Checked && v6OK
 //@   site call append#1 assert ip-filter-consulted-and-accepted: ipFilter != nil ==> filtChecked && filtOK
 //@   site call append#1 assert only-parsed-addresses: err == nil && len(arg1) == 1 && arg1[0].addr == ipAddr && arg1[0].iface == iface.Name
+
+// The server-reflexive gatherer: with an interface or IP filter configured it
+// binds one socket per address that localInterfaces accepted (never the wildcard
+// address), only for UDP network types, and scans with exactly the configured filters.
+//@ func (*Agent).gatherCandidatesSrflx
+//@   props C18
+//@   opt nosafety
+//@   site call localInterfaces#1 assert scan-uses-the-configured-filters: arg0 == a.net && arg1 == a.interfaceFilter && arg2 == a.ipFilter && arg3 == networkTypes && arg4 == a.includeLoopback
+//@   site call gatherCandidatesSrflx$1#1 assert wildcard-base-only-without-any-filter: a.interfaceFilter == nil && a.ipFilter == nil
+//@   site call gatherCandidatesSrflx$1#1 assert only-udp-network-types: networkType != NetworkTypeTCP4 && networkType != NetworkTypeTCP6
+//@   site call gatherCandidatesSrflx$1#2 assert filtered-base-comes-from-the-scan: useFilteredLocalAddrs && 0 <= j && j < len(localAddrs)
+//@   site call gatherCandidatesSrflx$1#2 assert only-udp-network-types-2: networkType != NetworkTypeTCP4 && networkType != NetworkTypeTCP6
